@@ -76,6 +76,15 @@ impl Directory {
             }
         }
         let files = if let Some(files) = FileTracker::from_file_numbers(file_numbers) {
+            // A crash between the creation of a wal file and its preallocation leaves the newest
+            // file shorter than `FILE_NUM_BYTES`. Zeros mean "nothing written yet", so we finish
+            // the preallocation here: otherwise the file could not be read back (or, if it is
+            // the only file, the directory could not be opened at all).
+            let last_filepath = filepath(dir_path, files.last());
+            let last_file = OpenOptions::new().write(true).open(last_filepath)?;
+            if last_file.metadata()?.len() < FILE_NUM_BYTES as u64 {
+                last_file.set_len(FILE_NUM_BYTES as u64)?;
+            }
             files
         } else {
             let files = FileTracker::new();
